@@ -141,13 +141,26 @@ CLAIMS = [
         "level_note": "NOT decided: the theorem that these rules imply alpha-invariance of behaviour. The scope table encodes my reading of the "
                       "language's scoping rules and alarms on any semantic edit of a resolver arm.",
     },
+    {
+        "id": "C09",
+        "technique": "static analysis: HIR provenance rules (canonical keys, dedup before recursion, companion edges), MIR dominance gate for acyclicity, successor-function inventory, audited flow-sensitive traces of loader / DFS walkers / directive decoder",
+        "level_text": "Decides the structural content of 'once per canonical path, cyclic graphs rejected, providers first, fresh copy per "
+                      "occurrence, companion = annotation': every dedup key / provider path derives from SourcePath::identity; the dedup map "
+                      "is filled before recursion and hits return the stored id; load_signature drops a companion only when there is no "
+                      "companion path or file; SourceGraph is built only in load_root and returned only on the Ok edge of ensure_acyclic; "
+                      "both graph walkers enumerate successors only via dependencies() (signature + every import); audited traces of the "
+                      "cycle DFS (stack discipline, reported slice), the post-order provider walk, ImportSite::decode and of the assembly "
+                      "(SourceBoundary per occurrence, Ann with SignatureBoundary); no per-source cache in the builder.",
+        "level_note": "NOT decided: behavioural equivalence of an import with hand-inlining (quantifies over programs and runs); "
+                      "Path::canonicalize is trusted. The traces alarm on any semantic edit of the audited functions.",
+    },
 ]
 
 _PENDING = "check not built yet in this round (static rule designed in DESIGN.md, implementation pending)"
 NOT_APPLICABLE = [
     {"property_id": "C20", "reason": "behavioural equation through a 2800-line type-directed translation; no clause is both visible in the shape of elaborate/monadic/* and a necessary condition of the equation (DESIGN.md C20)"},
 ] + [{"property_id": p, "reason": _PENDING} for p in
-     ["C04", "C08", "C09", "C12", "C13", "C14", "C18", "C19"]]
+     ["C04", "C08", "C12", "C13", "C14", "C18", "C19"]]
 
 NOTES = ("Static analysis only: every verdict is computed from /repo's current working tree by the zyq rustc driver "
          "(facts) and repository-specific rules; nothing executes zydeco. Exit 2 (no VIOLATION line) means the tree could not "
